@@ -6,11 +6,13 @@ package main
 //   proxy_reset_guarded  : shape of retryState.reset(): bare `...Retries().Decrease()` (false) or
 //                          `if r.<flag> { ...Decrease() ... }` (true) (go/ast)
 //   proxy_direct_clears_again : processError's `if s.directResponse {..}` block assigns receiverFiltersAgainPhase = InitPhase (go/ast)
+//   proxy_default_global_ms : types.GlobalTimeout (evaluated)
 //   proxy_reason_code    : types.ConvertReasonToCode evaluated on every reset reason (runs the real function)
 //   phase order          : the types.Phase constants have the order the model's [phase] assumes (runs the real constants)
 
 import (
 	"fmt"
+	"time"
 	"go/ast"
 	"go/token"
 	"strings"
@@ -203,6 +205,7 @@ func genProxyTokens(repo string) (string, error) {
 			ok = false
 		}
 	}
+	fmt.Fprintf(&b, "Definition proxy_default_global_ms : Z := %d.\n", int64(types.GlobalTimeout/time.Millisecond))
 	b.WriteString("Definition proxy_src : srcp :=\n  {| loop_bound := proxy_loop_bound; min_budget := proxy_min_budget; reset_guarded := proxy_reset_guarded;\n     direct_clears_again := proxy_direct_clears_again;\n     direct_cancels_retry := proxy_direct_cancels_retry; reason_code := proxy_reason_code |}.\n")
 	fmt.Fprintf(&b, "Definition ProxyTokens_translator_ok := %v.\n", ok)
 	return b.String(), nil
